@@ -84,8 +84,17 @@ impl Worker {
         if let Ok(mut f) = std::fs::File::open(&self.stderr_path) {
             let _ = f.read_to_string(&mut s);
         }
-        if s.len() > 16384 {
-            s = s[s.len() - 16384..].to_string();
+        // keep the head (allocation record, panic message) and the tail (backtrace end)
+        if s.len() > 24576 {
+            let mut head_end = 8192;
+            while !s.is_char_boundary(head_end) {
+                head_end -= 1;
+            }
+            let mut tail_start = s.len() - 16384;
+            while !s.is_char_boundary(tail_start) {
+                tail_start += 1;
+            }
+            s = format!("{}\n...\n{}", &s[..head_end], &s[tail_start..]);
         }
         s
     }
@@ -407,7 +416,8 @@ pub fn run_batch(spec: &BatchSpec) -> Agg {
                     }
                 }
             };
-            let stop = || slow_hits.load(Ordering::Relaxed) >= 2 || unknown_hits.load(Ordering::Relaxed) >= 5000;
+            let limit: usize = std::env::var("VERIF_FAILFAST").ok().and_then(|s| s.parse().ok()).unwrap_or(5000);
+            let stop = || slow_hits.load(Ordering::Relaxed) >= 2 || unknown_hits.load(Ordering::Relaxed) >= limit;
             let mut w = Worker::spawn(&prop, tier);
             let mut agg = Agg { keep_per_seed: keep, ..Default::default() };
             loop {
